@@ -68,12 +68,12 @@ func BasicRecipes(clockNow int64) []Recipe {
 
 // TreeOpts steer RandomTree.
 type TreeOpts struct {
-	Nodes       int
-	ForkChance  int // percent chance that a new block forks off a random existing block instead of extending a leaf
-	InvalidMax  int // maximum number of invalid blocks
-	Recipes     []Recipe
-	EasyChance  int // varwork family: percent of min-difficulty blocks
-	NTx         int // -1 random
+	Nodes               int
+	ForkChance          int // percent chance that a new block forks off a random existing block instead of extending a leaf
+	InvalidMax          int // maximum number of invalid blocks
+	Recipes             []Recipe
+	EasyChance          int // varwork family: percent of min-difficulty blocks
+	NTx                 int // -1 random
 	ExtendInvalidChance int // percent chance to allow building on an invalid block
 }
 
